@@ -13,7 +13,7 @@
    process-wide pseudo random suffix; the model takes the names as a parameter ([tmps], one
    per change) and the theorems assume each is absent from its directory when used.
 
-   Not modelled: ReceiveOpt.Filter / MetadataOnly / NotifyHashed (nil), Differ other than
+   Not modelled: ReceiveOpt.Filter / MetadataOnly / NotifyHashed (nil; Merge IS modelled), Differ other than
    DiffMetadata, DAC permission checks (the receiver runs as root), concurrency: the walk of
    the old destination is taken up front (see the note at [old_listing]). *)
 From Coq Require Import List NArith Bool.
@@ -200,7 +200,8 @@ Inductive outcome :=
 | Drained (k : nat)    (* FIN seen: every later packet is read and dropped *)
 | Halted.               (* the effect budget ran out (used to enumerate prefixes) *)
 
-Record pipe := { pp_path : bytes; pp_stat : stat; pp_off : nat; pp_fd : option N }.
+Record pipe := { pp_path : bytes; pp_stat : stat; pp_off : nat; pp_fd : option N;
+                 pp_closed : bool (* Close() was called on an opened file and nobody removed the pipe *) }.
 
 Record rstate := {
   r_fs : fs;
@@ -215,7 +216,11 @@ Record rstate := {
   r_tmps : list bytes;               (* temporary names still to be used *)
   r_closed : bool;                   (* the empty STAT was received *)
   r_waited : bool;                   (* DiskWriter.Wait completed (receiver sent FIN) *)
-  r_asyncerr : bool;                 (* an async writer goroutine failed: surfaces in Wait *)
+  r_asyncerr : bool;                 (* the writer's errgroup context is cancelled (an async writer
+                                        failed, or HandleChange failed): finishers are gone *)
+  r_dead : option nat;               (* the diff / disk-writer goroutine returned an error while
+                                        this packet was handled; the receive loop itself goes on
+                                        reading until it meets a STAT, FIN, ERR or the end *)
   r_budget : option nat;             (* effects still allowed; None = unlimited *)
   r_applied : nat;                   (* effects applied so far *)
   r_out : outcome
@@ -225,29 +230,35 @@ Definition upd (st : rstate) (f : fs) : rstate :=
   {| r_fs := f; r_vstk := r_vstk st; r_seen := r_seen st; r_files := r_files st; r_pipes := r_pipes st;
      r_next := r_next st; r_old := r_old st; r_rmdir := r_rmdir st; r_dirtimes := r_dirtimes st;
      r_tmps := r_tmps st; r_closed := r_closed st; r_waited := r_waited st; r_asyncerr := r_asyncerr st;
-     r_budget := r_budget st; r_applied := r_applied st; r_out := r_out st |}.
+     r_dead := r_dead st; r_budget := r_budget st; r_applied := r_applied st; r_out := r_out st |}.
 Definition set_out (st : rstate) (o : outcome) : rstate :=
   {| r_fs := r_fs st; r_vstk := r_vstk st; r_seen := r_seen st; r_files := r_files st; r_pipes := r_pipes st;
      r_next := r_next st; r_old := r_old st; r_rmdir := r_rmdir st; r_dirtimes := r_dirtimes st;
      r_tmps := r_tmps st; r_closed := r_closed st; r_waited := r_waited st; r_asyncerr := r_asyncerr st;
-     r_budget := r_budget st; r_applied := r_applied st; r_out := o |}.
+     r_dead := r_dead st; r_budget := r_budget st; r_applied := r_applied st; r_out := o |}.
+(* the diff goroutine returns an error: the disk writer is cancelled *)
+Definition set_dead (st : rstate) (idx : nat) : rstate :=
+  {| r_fs := r_fs st; r_vstk := r_vstk st; r_seen := r_seen st; r_files := r_files st; r_pipes := r_pipes st;
+     r_next := r_next st; r_old := r_old st; r_rmdir := r_rmdir st; r_dirtimes := r_dirtimes st;
+     r_tmps := r_tmps st; r_closed := r_closed st; r_waited := r_waited st; r_asyncerr := true;
+     r_dead := Some idx; r_budget := r_budget st; r_applied := r_applied st; r_out := r_out st |}.
 Definition set_diff (st : rstate) (old : list stat) (rm : bytes) : rstate :=
   {| r_fs := r_fs st; r_vstk := r_vstk st; r_seen := r_seen st; r_files := r_files st; r_pipes := r_pipes st;
      r_next := r_next st; r_old := old; r_rmdir := rm; r_dirtimes := r_dirtimes st;
      r_tmps := r_tmps st; r_closed := r_closed st; r_waited := r_waited st; r_asyncerr := r_asyncerr st;
-     r_budget := r_budget st; r_applied := r_applied st; r_out := r_out st |}.
+     r_dead := r_dead st; r_budget := r_budget st; r_applied := r_applied st; r_out := r_out st |}.
 Definition set_maps (st : rstate) (files : list (bytes * N)) (pipes : list (N * pipe)) (ae : bool) : rstate :=
   {| r_fs := r_fs st; r_vstk := r_vstk st; r_seen := r_seen st; r_files := files; r_pipes := pipes;
      r_next := r_next st; r_old := r_old st; r_rmdir := r_rmdir st; r_dirtimes := r_dirtimes st;
      r_tmps := r_tmps st; r_closed := r_closed st; r_waited := r_waited st; r_asyncerr := ae;
-     r_budget := r_budget st; r_applied := r_applied st; r_out := r_out st |}.
+     r_dead := r_dead st; r_budget := r_budget st; r_applied := r_applied st; r_out := r_out st |}.
 
 (* spend one unit of the effect budget; None = out of budget *)
 Definition spend (st : rstate) : option rstate :=
   let st' b := {| r_fs := r_fs st; r_vstk := r_vstk st; r_seen := r_seen st; r_files := r_files st;
                   r_pipes := r_pipes st; r_next := r_next st; r_old := r_old st; r_rmdir := r_rmdir st;
                   r_dirtimes := r_dirtimes st; r_tmps := r_tmps st; r_closed := r_closed st;
-                  r_waited := r_waited st; r_asyncerr := r_asyncerr st; r_budget := b;
+                  r_waited := r_waited st; r_asyncerr := r_asyncerr st; r_dead := r_dead st; r_budget := b;
                   r_applied := S (r_applied st); r_out := r_out st |} in
   match r_budget st with
   | None => Some (st' None)
@@ -259,31 +270,34 @@ Definition set_valid (st : rstate) (v : list ventry) (seen : list bytes) (files 
   {| r_fs := r_fs st; r_vstk := v; r_seen := seen; r_files := files; r_pipes := r_pipes st;
      r_next := next; r_old := r_old st; r_rmdir := r_rmdir st; r_dirtimes := r_dirtimes st;
      r_tmps := r_tmps st; r_closed := r_closed st; r_waited := r_waited st; r_asyncerr := r_asyncerr st;
-     r_budget := r_budget st; r_applied := r_applied st; r_out := r_out st |}.
+     r_dead := r_dead st; r_budget := r_budget st; r_applied := r_applied st; r_out := r_out st |}.
 Definition set_flags (st : rstate) (closed waited : bool) : rstate :=
   {| r_fs := r_fs st; r_vstk := r_vstk st; r_seen := r_seen st; r_files := r_files st; r_pipes := r_pipes st;
      r_next := r_next st; r_old := r_old st; r_rmdir := r_rmdir st; r_dirtimes := r_dirtimes st;
      r_tmps := r_tmps st; r_closed := closed; r_waited := waited; r_asyncerr := r_asyncerr st;
-     r_budget := r_budget st; r_applied := r_applied st; r_out := r_out st |}.
+     r_dead := r_dead st; r_budget := r_budget st; r_applied := r_applied st; r_out := r_out st |}.
 Definition set_tmps (st : rstate) (tmps : list bytes) (dt : list (bytes * N)) : rstate :=
   {| r_fs := r_fs st; r_vstk := r_vstk st; r_seen := r_seen st; r_files := r_files st; r_pipes := r_pipes st;
      r_next := r_next st; r_old := r_old st; r_rmdir := r_rmdir st; r_dirtimes := dt;
      r_tmps := tmps; r_closed := r_closed st; r_waited := r_waited st; r_asyncerr := r_asyncerr st;
-     r_budget := r_budget st; r_applied := r_applied st; r_out := r_out st |}.
+     r_dead := r_dead st; r_budget := r_budget st; r_applied := r_applied st; r_out := r_out st |}.
 
 Definition running (st : rstate) : bool := match r_out st with Running => true | _ => false end.
+Definition is_dead (st : rstate) : bool := match r_dead st with Some _ => true | None => false end.
+(* the diff goroutine can still take a step *)
+Definition live (st : rstate) : bool := running st && negb (is_dead st).
 Definition default_tmp : bytes := [46; 116; 109; 112; 46; 48].   (* ".tmp.0" *)
 
 (* one HandleChange call issued by the diff (one effect), then AsyncDataCb bookkeeping *)
 Definition apply_change (c : ctx) (idx : nat) (kind : N) (p : bytes) (s : stat) (st : rstate) : rstate :=
-  if negb (running st) then st else
+  if negb (live st) then st else
   match spend st with
   | None => set_out st Halted
   | Some st1 =>
     let tmp := hd default_tmp (r_tmps st1) in
     let st2 := set_tmps st1 (tl (r_tmps st1)) (r_dirtimes st1) in
     match dw_handle c (r_fs st2) tmp kind p s with
-    | (f', DwErr) => set_out (upd st2 f') (Failed idx)
+    | (f', DwErr) => set_dead (upd st2 f') idx
     | (f', DwOk async newdir) =>
       let st3 := upd st2 f' in
       let st4 := if newdir then set_tmps st3 (r_tmps st3) (bset p (st_mtime s) (r_dirtimes st3)) else st3 in
@@ -292,7 +306,7 @@ Definition apply_change (c : ctx) (idx : nat) (kind : N) (p : bytes) (s : stat) 
         | None => set_maps st4 (r_files st4) (r_pipes st4) true      (* "invalid file request": seen by Wait *)
         | Some id =>
           set_maps st4 (bremove p (r_files st4))
-                   (aset id {| pp_path := p; pp_stat := s; pp_off := O; pp_fd := None |} (r_pipes st4))
+                   (aset id {| pp_path := p; pp_stat := s; pp_off := O; pp_fd := None; pp_closed := false |} (r_pipes st4))
                    (r_asyncerr st4)
         end
       else st4
@@ -319,7 +333,7 @@ Fixpoint diff_feed (c : ctx) (idx : nat) (f2 : stat) (old : list stat) (st : rst
       if suppressed (r_rmdir st) (st_path f1) then diff_feed c idx f2 rest (set_diff st rest (r_rmdir st))
       else
         let st1 := apply_change c idx 2 (st_path f1) f1 (set_diff st rest (rm_prefix_of f1)) in
-        if running st1 then diff_feed c idx f2 rest st1 else st1
+        if live st1 then diff_feed c idx f2 rest st1 else st1
     | Gt => apply_change c idx 0 (st_path f2) f2 (set_diff st old [])
     | Eq =>
       let rm := if st_is_dir f1 && negb (st_is_dir f2) then st_path f1 ++ [sep] else [] in
@@ -336,7 +350,7 @@ Fixpoint diff_flush (c : ctx) (idx : nat) (old : list stat) (st : rstate) : rsta
     if suppressed (r_rmdir st) (st_path f1) then diff_flush c idx rest (set_diff st rest (r_rmdir st))
     else
       let st1 := apply_change c idx 2 (st_path f1) f1 (set_diff st rest (rm_prefix_of f1)) in
-      if running st1 then diff_flush c idx rest st1 else st1
+      if live st1 then diff_flush c idx rest st1 else st1
   end.
 
 Fixpoint mem_bytes (p : bytes) (l : list bytes) : bool :=
@@ -351,7 +365,7 @@ Definition hl_step (seen : list bytes) (s : stat) : option (list bytes) :=
     (if mem_bytes (st_linkname s) seen then Some seen else None)
   else Some (st_path s :: seen).
 
-(* a STAT packet with a stat *)
+(* a STAT packet with a stat: both validators, then dynamicWalker.update *)
 Definition recv_stat (c : ctx) (idx : nat) (s : stat) (st : rstate) : rstate :=
   let files := if mode_is_regular (st_mode s) then bset (st_path s) (r_next st) (r_files st) else r_files st in
   let st0 := set_valid st (r_vstk st) (r_seen st) files (r_next st + 1) in
@@ -362,23 +376,37 @@ Definition recv_stat (c : ctx) (idx : nat) (s : stat) (st : rstate) : rstate :=
     | None => set_out (set_valid st0 v' (r_seen st) files (r_next st + 1)) (Failed idx)
     | Some seen' =>
       let st1 := set_valid st0 v' seen' files (r_next st + 1) in
-      if r_closed st1 then set_out st1 (Panicked idx)     (* send on the closed walker channel *)
+      if is_dead st1 && negb (r_closed st1) then set_out st1 (Failed idx)   (* "walker is closed" *)
+      else if r_closed st1 then set_out st1 (Panicked idx)     (* send on the closed walker channel *)
       else diff_feed c idx s (r_old st1) st1
     end
   end.
 
 (* a DATA packet: lazyFileWriter opens the FINAL path (O_WRONLY, follows) on the first
-   non-empty chunk; the empty chunk closes, then Chmod (setuid/setgid only) and chtimes *)
+   non-empty chunk; the empty chunk closes; then the goroutine that asked for the file does
+   Chmod (setuid/setgid only), chtimes and delete(pipes, id) — unless the writer's errgroup
+   context has been cancelled, in which case that goroutine is gone and the pipe stays *)
 Definition recv_data (c : ctx) (idx : nat) (id : N) (d : bytes) (st : rstate) : rstate :=
   match alookup id (r_pipes st) with
   | None => set_out st (Failed idx)                       (* "invalid file request" *)
   | Some pp =>
+    if pp_closed pp then set_out st (Failed idx)          (* write to / close of a closed file *)
+    else
     match spend st with
     | None => set_out st Halted
     | Some st1 =>
       let p := pp_path pp in
       let s := pp_stat pp in
       if is_nil d then
+        if r_asyncerr st1 then
+          match pp_fd pp with
+          | Some _ =>
+            set_maps st1 (r_files st1)
+                     (aset id {| pp_path := p; pp_stat := s; pp_off := pp_off pp; pp_fd := pp_fd pp; pp_closed := true |}
+                           (r_pipes st1)) true
+          | None => st1
+          end
+        else
         let f := r_fs st1 in
         let (f1, r1) := if has_bits (st_mode s) ModeSetuid || has_bits (st_mode s) ModeSetgid
                         then sys_chmod c f p (unix_perm (st_mode s)) else (f, ROk) in
@@ -394,16 +422,19 @@ Definition recv_data (c : ctx) (idx : nat) (id : N) (d : bytes) (st : rstate) : 
         | (f1, RFd i) =>
           let (f2, _) := fd_pwrite f1 i (pp_off pp) d in
           set_maps (upd st1 f2) (r_files st1)
-                   (aset id {| pp_path := p; pp_stat := s; pp_off := (pp_off pp + length d)%nat; pp_fd := Some i |}
+                   (aset id {| pp_path := p; pp_stat := s; pp_off := (pp_off pp + length d)%nat; pp_fd := Some i;
+                               pp_closed := false |}
                          (r_pipes st1)) (r_asyncerr st1)
         | (f1, _) => set_out (upd st1 f1) (Failed idx)     (* "failed to open" *)
         end
     end
   end.
 
-(* DiskWriter.Wait once the listing ended and every requested file was closed: an async
-   error surfaces; otherwise WalkDir(dest) re-applies the mtime of every directory it
-   created (one effect), and the receiver sends FIN *)
+(* DiskWriter.Wait, reached by the diff goroutine once the listing ended: an async error
+   surfaces at once (every file goroutine has returned); otherwise, when every requested
+   file has been closed, WalkDir(dest) re-applies the mtime of every directory the writer
+   created (one effect) and the receiver sends FIN.  filepath.WalkDir lstat-s its root: when
+   [dest] is given as a symlink to the directory nothing is visited ([dl]). *)
 Definition wait_pass (c : ctx) (d0 : N) (st : rstate) : fs :=
   fold_left (fun f (e : bytes * N * inode) =>
                match e with
@@ -415,52 +446,71 @@ Definition wait_pass (c : ctx) (d0 : N) (st : rstate) : fs :=
                | _ => f
                end) (tree_below 64 (r_fs st) d0 []) (r_fs st).
 
-Definition maybe_wait (c : ctx) (idx : nat) (st : rstate) : rstate :=
-  if running st || match r_out st with Drained _ => true | _ => false end then
-    if r_closed st && is_nil (r_pipes st) && negb (r_waited st) then
-      if r_asyncerr st then set_out st (Failed idx)
-      else match spend st with
-           | None => set_out st Halted
-           | Some st1 => set_flags (upd st1 (wait_pass c (c_cwd c) st1)) true true
-           end
+Definition maybe_wait (c : ctx) (dl : bool) (idx : nat) (st : rstate) : rstate :=
+  if (running st || match r_out st with Drained _ => true | _ => false end) && negb (is_dead st) then
+    if r_closed st && negb (r_waited st) then
+      if r_asyncerr st then set_dead st idx
+      else if is_nil (r_pipes st) then
+        match spend st with
+        | None => set_out st Halted
+        | Some st1 => set_flags (upd st1 (if dl then r_fs st1 else wait_pass c (c_cwd c) st1)) true true
+        end
+      else st
     else st
   else st.
 
-Definition recv_packet (c : ctx) (idx : nat) (pk : packet) (st : rstate) : rstate :=
+Definition recv_packet (c : ctx) (dl : bool) (idx : nat) (pk : packet) (st : rstate) : rstate :=
   if negb (running st) then st else
-  maybe_wait c idx
+  maybe_wait c dl idx
     match pk with
     | PErr => set_out st (Failed idx)
     | PFin => set_out st (Drained idx)
     | POther => st
     | PStat None =>
       if r_closed st then set_out st (Panicked idx)      (* close of a closed channel *)
+      else if is_dead st then set_out st (Failed idx)    (* "walker is closed" *)
       else diff_flush c idx (r_old st) (set_flags st true (r_waited st))
     | PStat (Some s) => recv_stat c idx s st
     | PData id d => recv_data c idx id d st
     end.
 
-Fixpoint recv_loop (c : ctx) (idx : nat) (pks : list packet) (st : rstate) : rstate :=
+Fixpoint recv_loop (c : ctx) (dl : bool) (idx : nat) (pks : list packet) (st : rstate) : rstate :=
   match pks with
   | [] => st
-  | pk :: r => recv_loop c (S idx) r (recv_packet c idx pk st)
+  | pk :: r => recv_loop c dl (S idx) r (recv_packet c dl idx pk st)
   end.
 
-Definition rstate_init (f : fs) (d0 : N) (tmps : list bytes) (budget : option nat) : rstate :=
+Definition rstate_init (f : fs) (d0 : N) (merge : bool) (tmps : list bytes) (budget : option nat) : rstate :=
   {| r_fs := f; r_vstk := vinit; r_seen := []; r_files := []; r_pipes := []; r_next := 0;
-     r_old := old_listing f d0; r_rmdir := []; r_dirtimes := []; r_tmps := tmps; r_closed := false;
-     r_waited := false; r_asyncerr := false; r_budget := budget; r_applied := O; r_out := Running |}.
+     r_old := if merge then [] else old_listing f d0; r_rmdir := []; r_dirtimes := []; r_tmps := tmps; r_closed := false;
+     r_waited := false; r_asyncerr := false; r_dead := None; r_budget := budget; r_applied := O; r_out := Running |}.
 
-(* the receive call on destination directory [d0] of process root [root] *)
-Definition recv_run (f : fs) (root d0 : N) (tmps : list bytes) (pks : list packet) (budget : option nat) : rstate :=
-  recv_loop {| c_root := root; c_cwd := d0 |} 0 pks (rstate_init f d0 tmps budget).
+(* the receive call on destination directory [d0] of process root [root]; [dl]: the string
+   [dest] itself names a symlink to [d0]; [merge]: ReceiveOpt.Merge (the old content of the
+   destination is not walked: nothing is deleted, every entry of the stream is handed to the
+   disk writer) *)
+Definition recv_run (f : fs) (root d0 : N) (dl merge : bool) (tmps : list bytes) (pks : list packet) (budget : option nat) : rstate :=
+  recv_loop {| c_root := root; c_cwd := d0 |} dl 0 pks (rstate_init f d0 merge tmps budget).
 
-Definition recv_fs (f : fs) (root d0 : N) (tmps : list bytes) (pks : list packet) : rstate :=
-  recv_run f root d0 tmps pks None.
+Definition recv_fs (f : fs) (root d0 : N) (dl merge : bool) (tmps : list bytes) (pks : list packet) : rstate :=
+  recv_run f root d0 dl merge tmps pks None.
 (* the file system after the first [j] effects (HandleChange calls, data writes, Wait) *)
-Definition recv_fs_prefix (f : fs) (root d0 : N) (tmps : list bytes) (pks : list packet) (j : nat) : fs :=
-  r_fs (recv_run f root d0 tmps pks (Some j)).
+Definition recv_fs_prefix (f : fs) (root d0 : N) (dl merge : bool) (tmps : list bytes) (pks : list packet) (j : nat) : fs :=
+  r_fs (recv_run f root d0 dl merge tmps pks (Some j)).
 
 (* Receive returns nil iff the sender's FIN arrived after Wait completed *)
 Definition recv_succeeds (st : rstate) : bool :=
-  match r_out st with Drained _ => r_waited st | _ => false end.
+  match r_out st with Drained _ => r_waited st && negb (is_dead st) | _ => false end.
+
+(* what the caller of Receive observes once the sender has closed the stream:
+   0 nil | 1 an error | 2 the call does not return (FIN was sent while the receiver still
+   waited for the listing or for content: the diff goroutine blocks for ever) | 3 the process
+   dies in a "closed channel" panic | 9 out of budget *)
+Definition recv_class (st : rstate) : N :=
+  match r_out st with
+  | Running => 1            (* io.EOF from the stream *)
+  | Failed _ => 1
+  | Panicked _ => 3
+  | Drained _ => if is_dead st then 1 else if r_waited st then 0 else 2
+  | Halted => 9
+  end.
